@@ -128,6 +128,11 @@ func (c *Collection) Update(id string, msg proto.Message, opts ...WriteOption) (
 				if err != nil {
 					return nil, err
 				}
+				if c.idInterceptor != nil {
+					// ids passed to Get, Update and Delete are intercepted, so the item has to be stored (and reported)
+					// under the intercepted form of the generated id or it could never be found again
+					id = c.idInterceptor(id)
+				}
 				if writeRequest.idCallback != nil {
 					writeRequest.idCallback(id)
 				}
